@@ -41,7 +41,7 @@ def exhaustive_type_table(eng):
                     elif kind in ("uri", "oct"):
                         leafs = [("L", (kind, r.bytes(n))) for n in (res, res + 4, res + 4092)]
                         if fl == 0x40 and res == 0:
-                            leafs += [("L", (kind, b)) for b in gen.text_special_forms()]
+                            leafs += [("L", (kind, b)) for b in gen.text_special_forms() + gen.uri_special_forms()]
                     elif kind == "ae":
                         leafs = [("L", (kind, b"1234567890123456"[: n])) for n in (1 + res, 5 + res, 9 + res, 12 + res) if n <= 15]
                         leafs += [("L", (kind, b"+123456789012345"[: n])) for n in (1 + res, 6 + res, 12 + res) if n <= 15]
@@ -657,6 +657,26 @@ def value_position_sweeps(eng, tier):
                     body = b"a" * p + seq2 + b"b" * (L - p - len(seq2))
                     ok = k >= len(bad) and len(seq2) == len(seq)
                     out.append(("utf8-at-every-position", "g", frame(code, body), ok))
+    # the groups the base protocol and the credit-control application give a special role (Failed-AVP, Proxy-Info, Vendor-Specific-
+    # Application-Id, Experimental-Result, Multiple-Services-Credit-Control, User-Equipment-Info, Subscription-Id) in the BUILT-IN
+    # dictionary: what is inside them is checked like everywhere else - an undefined member, a member length below its header or
+    # beyond the group, stray octets after the last member, ill-formed UTF-8 in a text member are refused; a good member is accepted
+    def bframe(body):
+        return bytes([1]) + gen.be(20 + len(body), 3) + bytes([0x80]) + gen.be(272, 3) + gen.be(4, 4) + gen.be(1, 4) + gen.be(2, 4) + body
+    def avp(code, data, ln=None):
+        n = 8 + len(data)
+        return gen.be(code, 4) + bytes([0x40]) + gen.be(n if ln is None else ln, 3) + data + b"\0" * ((4 - n % 4) % 4)
+    sid_ok, sid_bad = avp(263, b"ses;1;2"), avp(263, b"ses;\xe9;2")
+    for g in (279, 284, 260, 297, 456, 458, 443):
+        for what, inner, ok in (("good-member", sid_ok, True), ("undefined-member", avp(59999, b"abcd"), False), ("member-length-3", avp(263, b"abcd", 3), False),
+                                ("member-length-beyond-group", avp(263, b"abcd", 64), False), ("stray-octets", sid_ok + b"\1\2\3\4", False),
+                                ("stray-3-octets", sid_ok[:-1] + b"", False) if False else ("ill-formed-utf8-member", sid_bad, False),
+                                ("empty-group", b"", True)):
+            for levels in (1, 2):
+                body = avp(g, inner)
+                if levels == 2:
+                    body = avp(279, body)
+                out.append(("builtin-special-group:" + what, "b", bframe(avp(264, b"host.example") + body), ok))
     a = by["addr"]["code"]
     for fam in (0, 1, 2, 3, 8, 255, 256, 0xffff):
         for n in list(range(0, 20)) + [32, 33]:
@@ -668,7 +688,7 @@ def value_position_sweeps(eng, tier):
     # the address forms a library might want to "normalise" (IPv4-mapped / -compatible IPv6, NAT64, 6to4, unspecified, all ones,
     # loopback, link-local, multicast; 0.0.0.0, broadcast, loopback): each is accepted and is the value its octets say
     for ty in ("utf", "id", "uri", "oct"):
-        for b in gen.text_special_forms():
+        for b in gen.text_special_forms() + (gen.uri_special_forms() if ty in ("uri", "oct") else []):
             out.append(("text-special-forms", "g", frame(by[ty]["code"], b), True))
     for b in gen.ipv6_special_forms():
         out.append(("address-special-forms", "g", frame(a, gen.be(2, 2) + b), True))
@@ -977,6 +997,17 @@ def check_C05(chk, tier, seed):
             line = hist_line("g", ("NEW", 272, 4, 0x80, 1, 2), [("ADD", e), ("ADDAVP", 1011, None, 0, ("L", ("oct", b"xyz")))])
             cases.append(f"W {line[2:]} {hx(100000)} 0")
             expect.append(("time", inr, t))
+    # values a message can hold although no decoder would take them back (an E.164 address of more than 15 digits): whatever the
+    # encoder decides - refuse, or write them - a success means a frame as long as its own Message Length says, every octet of it
+    adef = [d for d in eng.dicts["g"].live() if d["ty"] == "addr" and d["vendor"] is None][0]
+    for n in (15, 16, 17, 20, 40, 255):
+        for wrap in (0, 1):
+            e = ("E", adef["code"], None, 0x40, ("L", ("ae", bytes(0x30 + i % 10 for i in range(n)))))
+            if wrap:
+                e = ("E", gdef["code"], None, 0, ("GN", [e, ("E", 1011, None, 0, ("L", ("oct", b"ab")))]))
+            line = hist_line("g", ("NEW", 272, 4, 0x80, 1, 2), [("ADD", e), ("ADDAVP", 1011, None, 0, ("L", ("oct", b"xyz")))])
+            cases.append(f"W {line[2:]} {hx(100000)} 0")
+            expect.append(("selfconsistent", n, wrap))
     impl, model = eng.run(cases)
     # sizes at and past 2^24: implementation only (the theorem C05_unrepresentable covers the model side)
     big = []
@@ -1049,6 +1080,13 @@ def check_C05(chk, tier, seed):
                 ok = False
                 chk.violation("the octets handed to the writer are not a prefix of the frame up to the fault",
                               dict(case=c, impl=short(im, 3000), frame=xb(frame), budget=k))
+        elif ex[0] == "selfconsistent":
+            chk.count("long-e164")
+            got_acc = bytes.fromhex(t[3][1:])
+            if t[1] == "ok" and (len(got_acc) < 20 or len(got_acc) != int.from_bytes(got_acc[1:4], "big")):
+                ok = False
+                chk.violation("encoding reported success for a frame that is not as long as its own Message Length field says",
+                              dict(case=c, impl=short(im, 3000), octets_written=len(got_acc), message_length=int.from_bytes(got_acc[1:4], "big") if len(got_acc) >= 4 else None))
         else:
             _, inr, tval = ex
             chk.count("time:in" if inr else "time:out")
